@@ -79,9 +79,13 @@ class ObjGen(lg.Gen):
                 fn = r.choice(pool)
                 init = None
                 k = r.random()
-                if k < 0.5:
+                prev = [n for n, (ft, _, _) in fenv.items() if ft == t and t in ("int", "long", "float", "str")]
+                if prev and k < 0.45:
+                    # an initialiser that reads an earlier field by its bare name
+                    init = ("bin", "+", ("v", r.choice(prev)), self.lit(t))
+                elif k < 0.7:
                     init = self.lit(t)
-                elif k < 0.8:
+                elif k < 0.9:
                     init = self.prim_expr(t, fenv, 1)       # may mention earlier fields by bare name
                 c["fields"].append((False, False, t, fn, init))
                 fenv[fn] = (t, False, False)
@@ -97,7 +101,7 @@ class ObjGen(lg.Gen):
                     t = r.choice(["int", "long", "float", "str"])
                     # constructor parameters deliberately reuse field names (a bare name in an
                     # initialiser must still mean the field)
-                    cands = [f[3] for f in self.all_fields(name) if f[3] not in used] if r.random() < 0.4 else []
+                    cands = [f[3] for f in self.all_fields(name) if f[3] not in used] if r.random() < 0.6 else []
                     pn = r.choice(cands) if cands else r.choice([n for n in self.pool if n not in used])
                     used.add(pn)
                     params.append((t, pn))
@@ -126,6 +130,9 @@ class ObjGen(lg.Gen):
                 c["ctors"].append((params, sup, body, False))
             # methods
             self.gen_methods(c)
+            # every instance field is observable
+            c["meths"].append(("dump" + name, [], "void", [("echo", ("bin", "+", ("s", f[3] + "="), ("fld", ("this",), f[3])))
+                                                            for f in self.all_fields(name)], False, ""))
             if self.with_dtors and r.random() < 0.6:
                 c["dtor"] = [("echo", ("s", "~" + name))]
 
@@ -251,7 +258,7 @@ class ObjGen(lg.Gen):
     def call_stmt(self, var, static_cls, env, objs):
         r = self.r
         ms = list(self.visible_methods(static_cls).items())
-        ms = [(k, v) for k, v in ms if not v[1][4]]
+        ms = [(k, v) for k, v in ms if not v[1][4] and not k[0].startswith("dump")]
         if not ms:
             return []
         (k, (oc, m)) = r.choice(ms)
@@ -261,6 +268,9 @@ class ObjGen(lg.Gen):
         if any(a == ("null",) for a in args) and sum(1 for kk in self.visible_methods(static_cls) if kk[0] == m[0] and len(kk[1]) == len(m[1])) > 1:
             return []        # a null literal argument with several overloads may be ambiguous
         call = ("mcall", ("v", var), m[0], args)
+        rets = {v[1][2] == "void" for k, v in self.visible_methods(static_cls).items() if k[0] == m[0] and len(k[1]) == len(m[1])}
+        if len(rets) > 1:
+            return [("expr", call)]      # another overload may be chosen; do not depend on the result type
         return [("expr", call)] if m[2] == "void" else [("echo", call)]
 
     def gen_main(self):
@@ -277,8 +287,11 @@ class ObjGen(lg.Gen):
             used.add(v)
             body.append(("decl", False, ("cls", st), v, self.new_expr(dyn, env, objs)))
             objs[v] = dict(static=st)
+            body.append(("expr", ("mcall", ("v", v), "dump" + st, [])))
             for _ in range(r.randint(1, 3)):
                 body += self.call_stmt(v, st, env, objs)
+            if r.random() < 0.5:
+                body.append(("expr", ("mcall", ("v", v), "dump" + st, [])))
             if r.random() < 0.4:
                 fs = self.all_fields(st)
                 if fs:
